@@ -426,6 +426,10 @@ func (tps *TPS) waitForDeCommitmentDistribution(ctx context.Context) {
 }
 
 func (tps *TPS) combineShares() PK {
+	// Messages of other parties may be handled while we combine our shares
+	tps.lock.Lock()
+	defer tps.lock.Unlock()
+
 	for _, party := range tps.parties {
 		if party == tps.Party {
 			continue
